@@ -374,11 +374,11 @@ class JRNAdapter:
         def thr(o, s, rng):
             v = (rng.choice([0.5, 1.5, 2.5]), rng.choice([0.5, 1.5, 2.5]))
             s["kw"] = {"threshold": v}
-            o.set_fixed_threshold(*v)
+            o.set_fixed_threshold(v)
         def rr(o, s, rng):
             v = (rng.choice([0.2, 0.4]), rng.choice([0.2, 0.4]))
             s["kw"] = {"recurrence_rate": v}
-            o.set_fixed_recurrence_rate(*v)
+            o.set_fixed_recurrence_rate(v)
         return [("set_fixed_threshold", thr),
                 ("set_fixed_recurrence_rate", rr)]
 
@@ -390,6 +390,58 @@ class JRNAdapter:
             [o.N, o.n_links, o.link_density], dtype=float)))
         qs.append(("adjacency", lambda o: o.adjacency))
         return qs
+
+
+class JRPAdapter(JRNAdapter):
+    """JointRecurrencePlot proper (no network counters behind it): JR has no
+    counter of its own, the line-based RQA caches must follow the setters;
+    identical series and a lag are the configuration where the two embeddings
+    coincide"""
+    name = "JointRecurrencePlot"
+
+    def cls(self):
+        from pyunicorn.timeseries.joint_recurrence_plot import \
+            JointRecurrencePlot
+        return JointRecurrencePlot
+
+    def make(self, rng):
+        n = rng.randint(8, 14)
+        x = _series(rng, n)
+        y = x.copy() if rng.random() < 0.5 else _series(rng, n)
+        return {"x": x, "y": y, "lag": rng.choice([0, 0, 1, 2]),
+                "kw": {"threshold": (1.5, 1.5)}}
+
+    def build(self, spec):
+        return self.cls()(spec["x"].copy(), spec["y"].copy(),
+                          metric=("supremum", "supremum"), lag=spec["lag"],
+                          silence_level=3, **spec["kw"])
+
+    def mutators(self):
+        def thr(o, s, rng):
+            v = (rng.choice([0.5, 1.5, 2.5]), rng.choice([0.5, 1.5, 2.5]))
+            s["kw"] = {"threshold": v}
+            o.set_fixed_threshold(v)
+
+        def rr(o, s, rng):
+            v = (rng.choice([0.2, 0.4]), rng.choice([0.2, 0.4]))
+            s["kw"] = {"recurrence_rate": v}
+            o.set_fixed_recurrence_rate(v)
+
+        def thr_std(o, s, rng):
+            v = (rng.choice([0.25, 0.5, 1.0]), rng.choice([0.25, 0.5, 1.0]))
+            s["kw"] = {"threshold_std": v}
+            o.set_fixed_threshold_std(v)
+        return [("set_fixed_threshold", thr),
+                ("set_fixed_recurrence_rate", rr),
+                ("set_fixed_threshold_std", thr_std)]
+
+    def queries(self, obj):
+        names = ["recurrence_matrix", "recurrence_rate", "vertline_dist",
+                 "diagline_dist", "white_vertline_dist", "determinism",
+                 "laminarity", "average_diaglength", "trapping_time",
+                 "max_diaglength", "max_vertlength", "diag_entropy"]
+        return [(n, (lambda o, n=n: getattr(o, n)())) for n in names
+                if hasattr(obj, n)]
 
 
 class ResAdapter:
@@ -569,7 +621,8 @@ class SurrAdapter:
 
 
 ADAPTERS = [NetAdapter, GeoAdapter, ClimAdapter, TsonisAdapter, RPAdapter,
-            RNAdapter, JRNAdapter, ResAdapter, DataAdapter, SurrAdapter]
+            RNAdapter, JRNAdapter, JRPAdapter, ResAdapter, DataAdapter,
+            SurrAdapter]
 
 
 # --------------------------------------------------------------------------
